@@ -200,11 +200,11 @@ def table8(fam, n):
     return _TABLES[key]
 
 
-def gate8(kind, pins):
+def gate8(kind, pins, shape=None):
     """pins: list of numpy code arrays or None. Returns numpy array of codes."""
     import numpy as np
     fam, ops = effective_operands(kind, pins)
-    shape = next((o.shape for o in ops if o is not None), (1,))
+    shape = next((o.shape for o in ops if o is not None), shape or (1,))
     ops = [np.zeros(shape, dtype=np.uint8) if o is None else o for o in ops]
     return table8(fam, len(ops))[tuple(ops)]
 
@@ -227,12 +227,13 @@ def is_state(kind):
     return 'dff' in k or 'latch' in k
 
 
-def graph_eval(circuit, assign, gate_fn, inv_fn, zero):
+def graph_eval(circuit, assign, gate_fn, inv_fn, zero, override=None):
     """Evaluates every line of a kyupy Circuit.
 
     assign: dict node-index -> value for interface nodes that act as sources
             (io nodes without connected inputs, state elements).
     gate_fn(kind, pins) -> value ; inv_fn(value) -> value ; zero: the constant-0 value.
+    override: optional dict line-index -> value; such a line is cut from its driver and carries the given value.
     Returns dict line-index -> value.  Raises ValueError on a combinational loop.
     """
     io = set(n.index for n in circuit.io_nodes)
@@ -242,6 +243,9 @@ def graph_eval(circuit, assign, gate_fn, inv_fn, zero):
     def line_val(line):
         li = line.index
         if li in val: return val[li]
+        if override is not None and li in override:
+            val[li] = override[li]
+            return val[li]
         if li in busy: raise ValueError('combinational loop')
         busy.add(li)
         d = line.driver
